@@ -171,6 +171,8 @@ class HSym:
         return a is b
 
     def type_name(self, o):
+        if isinstance(o, I.Obj) and '_class_name' in o.attrs:
+            return o.attrs['_class_name']          # torch.fx.GraphModule instances carry the class name of the traced root
         t = self.it.type_of(o)
         n = getattr(t, 'name', None) or getattr(t, '__name__', str(t))
         return n.split('.')[-1]
